@@ -27,10 +27,10 @@ def act_chunk(rng, a, pos):
     if a == "3xx":
         ls = [t0()]; return G.reply(334, ls), False, ("pos", 334, ls)
     if a in ("4xx", "4xxN"):
-        c = rng.choice([421, 450, 451, 452]); ls = [t0()] + ([t(), t()] if a == "4xxN" else [])
+        c = rng.choice([421, 450, 451, 452, 401, 432, 454, 455]); ls = [t0()] + ([t(), t()] if a == "4xxN" else [])
         return G.reply(c, ls), False, ("neg", "transient", c, b"".join(ls))
     if a in ("5xx", "5xxN"):
-        c = rng.choice([500, 550, 552, 554]); ls = [t0()] + ([t()] if a == "5xxN" else [])
+        c = rng.choice([500, 550, 552, 554, 501, 503, 510, 521, 530, 535, 551, 553, 555, 556]); ls = [t0()] + ([t()] if a == "5xxN" else [])
         return G.reply(c, ls), False, ("neg", "permanent", c, b"".join(ls))
     if a == "bare":
         return b"%d\r\n" % okc, False, ("pos", okc, [b""])
@@ -171,8 +171,50 @@ def starttls_refusal_family(ctx):
         ctx.violation({"kind": "oracle", "entry": "STARTTLS refused", "what": bad[0][1], "scenario": bad[0][0], "failures": len(bad)})
 
 
+def refused_command_is_final_family(ctx):
+    """Every negative code at MAIL / RCPT / DATA, with and without extension parameters on MAIL (non-ASCII content or address to a server that
+    offers 8BITMIME and SMTPUTF8): the send fails with that code and class, and the client says nothing more than QUIT - no second attempt
+    in another form."""
+    from smtp import step, run_scenarios, events_R
+    codes = [401, 421, 432, 450, 451, 452, 454, 455, 500, 501, 502, 503, 504, 510, 521, 530, 535, 550, 551, 552, 553, 554, 555, 556]
+    msgs = [("ascii", b"a@x.org", b"b@y.org", b"Subject: x\r\n\r\nplain\r\n"), ("8bit", b"a@x.org", b"b@y.org", "Subject: x\r\n\r\ncaf\u00e9\r\n".encode()),
+            ("utf8addr", "\u00e9@x.org".encode(), b"b@y.org", b"Subject: x\r\n\r\nplain\r\n")]
+    scs = []
+    for code in codes:
+        for pos in ("MAIL", "RCPT", "DATA"):
+            for what, fr, to, msg in msgs:
+                for fl in ("sync", "tokio"):
+                    rep = b"%d 5.5.4 refused at %s\r\n" % (code, pos.encode())
+                    steps = [step("none", b"220 hi\r\n"), step("line", b"250-srv\r\n250-8BITMIME\r\n250 SMTPUTF8\r\n")]
+                    for p in ("MAIL", "RCPT", "DATA"):
+                        if p == pos:
+                            steps.append(step("line", rep)); break
+                        steps.append(step("line", b"250 ok\r\n" if p != "DATA" else b"354 go\r\n"))
+                    steps += [step("line", b"221 bye\r\n"), step("line", b"250 again?\r\n"), step("line", b"250 again?\r\n"), step("line", b"354 again?\r\n"), step("data", b"250 queued\r\n")]
+                    scs.append({"id": 800000 + len(scs), "flavor": fl, "timeout_ms": 1500, "servers": [steps], "server_cap_ms": 2500, "code": code, "pos": pos, "what": what,
+                                "ops": [{"op": "connect", "hello": hx(b"c05.test")}, {"op": "send", "from": hx(fr), "to": [hx(to)], "msg": hx(msg)}]})
+    if ctx.tier == "quick":
+        scs = [s for k, s in enumerate(scs) if s["code"] in (421, 452, 550, 555, 556, 503) or k % 7 == 0]
+    bad = []
+    for sc, r in zip(scs, run_scenarios(scs)):
+        ctx.count(); ctx.cls("refused-%s/%s" % (sc["pos"], sc["flavor"]))
+        srv = (r.get("servers") or [None])[0]
+        Rs = events_R(srv) if srv else []
+        res = str((r.get("results") or ["", ""])[1]) if isinstance(r.get("results"), list) else str(r.get("results", r.get("error")))
+        verbs = [x.split(b" ")[0].split(b":")[0].strip().upper() for x in Rs]
+        npos = ["MAIL", "RCPT", "DATA"].index(sc["pos"])
+        want_verbs = [b"EHLO", b"MAIL", b"RCPT", b"DATA"][:npos + 2] + [b"QUIT"]
+        want = "err,%s,%d," % ("transient" if sc["code"] < 500 else "permanent", sc["code"])
+        if not res.startswith(want) or verbs != want_verbs:
+            bad.append((sc, "%s answered %d (%s message, %s): send returned %s, the server read %s" % (sc["pos"], sc["code"], sc["what"], sc["flavor"], res[:70], [v.decode("latin-1") for v in verbs])))
+    ctx.cov["oracle"]["refused_command_is_final"] = {"scenarios": len(scs), "failures": len(bad)}
+    if bad:
+        ctx.violation({"kind": "oracle", "entry": "refused MAIL / RCPT / DATA", "what": bad[0][1], "scenario": {k: bad[0][0][k] for k in ("flavor", "ops", "servers")}, "failures": len(bad)})
+
+
 def run(ctx):
     starttls_refusal_family(ctx)
+    refused_command_is_final_family(ctx)
     rng = ctx.rng
     late_acceptance(ctx)
     scs = []
